@@ -158,3 +158,46 @@ func DecodeError(codec string, data []byte) (err error) {
 	_, err = io.Copy(io.Discard, r)
 	return err
 }
+
+// CompressFlushed compresses the parts one after the other with a flush of the compressor after
+// each of them (gzip: sync flush; zstd: end of block), and returns the offsets of the compressed
+// stream at which every byte of parts[0..i] can be decoded: a stream cut at such an offset decodes
+// to whole parts and then ends unexpectedly. Only gzip and zstd can do that.
+func CompressFlushed(codec string, parts [][]byte) (comp []byte, cuts []int, err error) {
+	var b bytes.Buffer
+	switch codec {
+	case "gzip":
+		w := gzip.NewWriter(&b)
+		for _, p := range parts {
+			w.Write(p)
+			if err := w.Flush(); err != nil {
+				return nil, nil, err
+			}
+			cuts = append(cuts, b.Len())
+		}
+		if err := w.Close(); err != nil {
+			return nil, nil, err
+		}
+	case "zstd":
+		w, err := zstd.NewWriter(&b)
+		if err != nil {
+			return nil, nil, err
+		}
+		for _, p := range parts {
+			w.Write(p)
+			if err := w.Flush(); err != nil {
+				return nil, nil, err
+			}
+			cuts = append(cuts, b.Len())
+		}
+		if err := w.Close(); err != nil {
+			return nil, nil, err
+		}
+	default:
+		return nil, nil, fmt.Errorf("codec %s cannot be flushed", codec)
+	}
+	if len(cuts) > 0 {
+		cuts = cuts[:len(cuts)-1] // the last one is followed by the end of the stream only
+	}
+	return b.Bytes(), cuts, nil
+}
